@@ -2,7 +2,7 @@
 # usage: confirm_seed.sh <seed_dir> <k> <worktree>   (worktree: a scratch git worktree of /repo at HEAD, clean)
 # Confirms a seeded change: (1) demo passes on the clean tree, (2) patch applies and builds,
 # (3) the 499 stable tests pass with it, (4) demo fails with it. Prints a JSON line; exit 0 iff all hold.
-S="$1"; K="$2"; W="$3"
+S="$(realpath "$1")"; K="$2"; W="$3"; TOOLS="$(cd "$(dirname "$0")" && pwd)"
 export GOFLAGS=-mod=mod GOPROXY=off GOSUMDB=off GOTOOLCHAIN=local
 P="$S/patch$K.diff"; [ -f "$P" ] || { echo "{\"ok\":false,\"why\":\"no patch\"}"; exit 1; }
 cd "$W" || exit 2
@@ -25,7 +25,7 @@ git apply "$P" 2>/dev/null || git apply --3way "$P" >/dev/null 2>&1 || { git res
 git reset -q
 go build ./... > "$W/.build.out" 2>&1; build_rc=$?
 tests_rc=0
-if [ $build_rc -eq 0 ]; then "$(dirname "$0")/stable_tests.sh" "$W" > "$W/.tests.out" 2>&1; tests_rc=$?; fi
+if [ $build_rc -eq 0 ]; then "$TOOLS/stable_tests.sh" "$W" > "$W/.tests.out" 2>&1; tests_rc=$?; fi
 run_demo; mut_rc=$?
 git checkout -q -- . ; git clean -fdq -e _seed >/dev/null 2>&1
 ok=false; [ $clean_rc -eq 0 ] && [ $build_rc -eq 0 ] && [ $tests_rc -eq 0 ] && [ $mut_rc -ne 0 ] && [ $mut_rc -ne 99 ] && ok=true
